@@ -1359,10 +1359,11 @@ func (m *c50o) ruleO3(w *c50execFn, readers []*c50execFn) {
 	clsName := map[string]string{"off": "disabled", "on": "enabled"}
 	// ---- reader: words mapped to NULL, escape letters -------------------------------------------------------------
 	type word struct {
-		w   string
-		cls string
-		pos token.Pos
-		fn  string
+		w      string
+		cls    string
+		pos    token.Pos
+		fn     string
+		guards []string // option-only literals under which the word is mapped to NULL
 	}
 	var words []word
 	type arm struct {
@@ -1392,11 +1393,17 @@ func (m *c50o) ruleO3(w *c50execFn, readers []*c50execFn) {
 				if !ok {
 					return true
 				}
+				var optOnly []string
+				for _, a := range gs {
+					if s := m.toOptions(a.String()); m.optionOnly(s) {
+						optOnly = append(optOnly, s)
+					}
+				}
 				for _, a := range gs {
 					if a.Kind == "eq" && a.Op == "==" && len(a.Consts) > 0 {
 						for _, k := range a.Consts {
 							if k.Kind() == constant.String {
-								words = append(words, word{constant.StringVal(k), m.escClass(r.f, gs), v.Pos(), DeclName(r.fd)})
+								words = append(words, word{constant.StringVal(k), m.escClass(r.f, gs), v.Pos(), DeclName(r.fd), optOnly})
 							}
 						}
 					}
@@ -1497,6 +1504,7 @@ func (m *c50o) ruleO3(w *c50execFn, readers []*c50execFn) {
 		cls    string
 		pos    token.Pos
 		guards []string // option-only literals
+		gkey   string   // all literals: emissions with the same key happen together
 	}
 	var ems []emission
 	ast.Inspect(w.fd.Body, func(n ast.Node) bool {
@@ -1533,7 +1541,7 @@ func (m *c50o) ruleO3(w *c50execFn, readers []*c50execFn) {
 		for _, a := range args {
 			ps = c50join(ps, w.f.template(a))
 		}
-		ems = append(ems, emission{ps, m.escClass(w.f, gs), call.Pos(), optOnly})
+		ems = append(ems, emission{ps, m.escClass(w.f, gs), call.Pos(), optOnly, c50conj(gs)})
 		return true
 	})
 	keyOf := func(cls string) string { return wname + "/NULL with escaping " + clsName[cls] }
@@ -1541,88 +1549,125 @@ func (m *c50o) ruleO3(w *c50execFn, readers []*c50execFn) {
 		c.Undecided("C50-O3", keyOf("off"), w.fd.Pos(), "no emission under a `value == nil` test found in "+wname+": cannot read how NULL is written")
 		return
 	}
-	bare := map[string]map[string]bool{"off": {}, "on": {}} // words the writer emits for nil, per class
-	for _, cls := range []string{"off", "on"} {
-		key := keyOf(cls)
-		var sel []emission
-		for _, e := range ems {
-			if e.cls == "" || e.cls == cls {
-				sel = append(sel, e)
+	// emissions made under the same conditions form one representation (WriteString(esc); WriteString("N") == WriteString(esc+"N"))
+	type group struct {
+		parts  []c50Part
+		cls    string
+		pos    token.Pos
+		guards []string
+	}
+	var groups []*group
+	byKey := map[string]*group{}
+	for _, e := range ems {
+		g := byKey[e.gkey]
+		if g == nil {
+			g = &group{cls: e.cls, pos: e.pos, guards: e.guards}
+			byKey[e.gkey] = g
+			groups = append(groups, g)
+		}
+		g.parts = c50join(g.parts, e.parts)
+	}
+	sort.Slice(groups, func(i, j int) bool { return groups[i].pos < groups[j].pos })
+	implies := func(have map[string]bool, g string) bool {
+		if have[g] {
+			return true
+		}
+		if strings.HasPrefix(g, "(") && strings.HasSuffix(g, ")") {
+			for _, alt := range strings.Split(g[1:len(g)-1], " | ") { // a disjunction holds if one alternative does
+				if have[alt] {
+					return true
+				}
 			}
 		}
-		if len(sel) == 0 {
-			c.Bad("C50-O3", key, w.fd.Pos(), fmt.Sprintf("%s writes nothing for a nil value when escaping is %s: the field is read back as an empty string", wname, clsName[cls]))
+		return false
+	}
+	usedKey := map[string]bool{}
+	covered := map[string]bool{}
+	for _, g := range groups {
+		shown := c50showParts(g.parts)
+		classes := []string{g.cls}
+		if g.cls == "" {
+			classes = []string{"off", "on"}
+		}
+		have := map[string]bool{}
+		for _, x := range g.guards {
+			have[x] = true
+		}
+		isWord := len(g.parts) == 1 && g.parts[0].Opt == "" && g.parts[0].Unk == ""
+		isEscLetter := len(g.parts) == 2 && g.parts[0].Opt == m.nm.escapeField && g.parts[1].Opt == "" && g.parts[1].Unk == "" && len(g.parts[1].Const) == 1
+		for _, cls := range classes {
+			covered[cls] = true
+			key := keyOf(cls)
+			if usedKey[key] {
+				key += " (alternative: " + shown + ")"
+			}
+			usedKey[key] = true
+			switch {
+			case isWord:
+				c.Check(accepts(g.parts[0].Const, cls), "C50-O3", key, g.pos, "writer emits "+shown+", reader maps that word to NULL",
+					fmt.Sprintf("with escaping %s %s writes %s for NULL, but the reader maps only %v to NULL: NULLs are read back as strings", clsName[cls], wname, shown, wordList))
+			case isEscLetter && cls == "off":
+				c.Bad("C50-O3", key, g.pos, fmt.Sprintf("%s writes %s for NULL also when escaping is disabled (%s empty): the file holds the bare letter, which is read back as a string", wname, shown, m.nm.escapeField))
+			case isEscLetter:
+				letter := g.parts[1].Const[0]
+				a, found := arms[letter]
+				switch {
+				case escSwitch == "":
+					c.Undecided("C50-O3", key, g.pos, "no switch over the byte after the escape character found in the reader functions: cannot read the escape letters")
+				case !found:
+					c.Bad("C50-O3", key, g.pos, fmt.Sprintf("%s writes %s for NULL but the reader's escape switch (%s) has no case %q: the field is read back as the string %q", wname, shown, escSwitch, string(letter), string(letter)))
+				case !a.ok:
+					c.Undecided("C50-O3", key, a.pos, fmt.Sprintf("the arm for escape letter %q in %s does not append a constant", string(letter), escSwitch))
+				default:
+					c.Check(accepts(a.text, cls), "C50-O3", key, g.pos, fmt.Sprintf("writer emits %s, reader arm %q yields %q which it maps to NULL", shown, string(letter), a.text),
+						fmt.Sprintf("%s writes %s for NULL; the reader's arm for escape letter %q yields %q, but only %v are mapped to NULL: NULLs are read back as strings", wname, shown, string(letter), a.text, wordList))
+				}
+			default:
+				c.Undecided("C50-O3", key, g.pos, fmt.Sprintf("NULL is written as %s with escaping %s: neither a constant word nor <%s>+letter", shown, clsName[cls], m.nm.escapeField))
+			}
+		}
+		if !isEscLetter {
 			continue
 		}
-		var ps []c50Part
-		for _, e := range sel {
-			ps = c50join(ps, e.parts)
+		// (b) the reader processes escape letters under every option condition under which the writer relies on them
+		if escSwitch != "" {
+			var missing []string
+			for _, x := range escSwitchGuards {
+				if !implies(have, x) {
+					missing = append(missing, x)
+				}
+			}
+			sort.Strings(missing)
+			key := wname + "/escape letters honoured whenever written"
+			if usedKey[key] {
+				key += " (alternative: " + shown + ")"
+			}
+			usedKey[key] = true
+			c.Check(len(missing) == 0, "C50-O3", key, escSwitchPos, fmt.Sprintf("reader condition %v is implied by the writer's %v", escSwitchGuards, g.guards),
+				fmt.Sprintf("%s writes %s for NULL whenever %v, but %s only interprets escape letters when additionally %s: under the remaining option combinations the NULL marker is read as data",
+					wname, shown, g.guards, escSwitch, strings.Join(missing, " & ")))
 		}
-		pos := sel[0].pos
-		shown := c50showParts(ps)
-		switch {
-		case len(ps) == 1 && ps[0].Opt == "" && ps[0].Unk == "":
-			bare[cls][ps[0].Const] = true
-			c.Check(accepts(ps[0].Const, cls), "C50-O3", key, pos, "writer emits "+shown+", reader maps that word to NULL",
-				fmt.Sprintf("with escaping %s %s writes %s for NULL, but the reader maps only %v to NULL: NULLs are read back as strings", clsName[cls], wname, shown, wordList))
-		case cls == "on" && len(ps) == 2 && ps[0].Opt == m.nm.escapeField && ps[1].Opt == "" && ps[1].Unk == "" && len(ps[1].Const) == 1:
-			letter := ps[1].Const[0]
-			a, found := arms[letter]
-			switch {
-			case escSwitch == "":
-				c.Undecided("C50-O3", key, pos, "no switch over the byte after the escape character found in the reader functions: cannot read the escape letters")
-			case !found:
-				c.Bad("C50-O3", key, pos, fmt.Sprintf("%s writes %s for NULL but the reader's escape switch (%s) has no case %q: the field is read back as the string %q", wname, shown, escSwitch, string(letter), string(letter)))
-			case !a.ok:
-				c.Undecided("C50-O3", key, a.pos, fmt.Sprintf("the arm for escape letter %q in %s does not append a constant", string(letter), escSwitch))
-			default:
-				c.Check(accepts(a.text, cls), "C50-O3", key, pos, fmt.Sprintf("writer emits %s, reader arm %q yields %q which it maps to NULL", shown, string(letter), a.text),
-					fmt.Sprintf("%s writes %s for NULL; the reader's arm for escape letter %q yields %q, but only %v are mapped to NULL: NULLs are read back as strings", wname, shown, string(letter), a.text, wordList))
+		// (c) where the writer uses the escape letter, a bare word that the reader maps to NULL is the text of a string value
+		for _, wd := range words {
+			key := fmt.Sprintf("%s/word %s read as NULL with escaping enabled", wd.fn, strconv.Quote(wd.w))
+			if usedKey[key] {
+				continue
 			}
-			// (b) the reader processes escape letters under every option condition under which the writer relies on them
-			if escSwitch != "" {
-				have := map[string]bool{}
-				for _, e := range sel {
-					for _, g := range e.guards {
-						have[g] = true
-					}
+			usedKey[key] = true
+			applies := true
+			for _, x := range wd.guards {
+				if !implies(have, x) {
+					applies = false
 				}
-				var missing []string
-				for _, g := range escSwitchGuards {
-					implied := have[g]
-					if !implied && strings.HasPrefix(g, "(") && strings.HasSuffix(g, ")") {
-						for _, alt := range strings.Split(g[1:len(g)-1], " | ") { // a disjunction holds if one alternative does
-							implied = implied || have[alt]
-						}
-					}
-					if !implied {
-						missing = append(missing, g)
-					}
-				}
-				sort.Strings(missing)
-				c.Check(len(missing) == 0, "C50-O3", wname+"/escape letters honoured whenever written", escSwitchPos, fmt.Sprintf("reader condition %v is implied by the writer's %v", escSwitchGuards, sel[0].guards),
-					fmt.Sprintf("%s writes %s for NULL whenever %v, but %s only interprets escape letters when additionally %s: under the remaining option combinations the NULL marker is read as data",
-						wname, shown, sel[0].guards, escSwitch, strings.Join(missing, " & ")))
 			}
-		default:
-			c.Undecided("C50-O3", key, pos, fmt.Sprintf("NULL is written as %s with escaping %s: neither a constant word nor <%s>+letter", shown, clsName[cls], m.nm.escapeField))
+			c.Check(!applies, "C50-O3", key, wd.pos, fmt.Sprintf("the word is only mapped to NULL when %v, which excludes the writer's %v", wd.guards, g.guards),
+				fmt.Sprintf("%s maps the field text %s to NULL also when %v, but %s then writes NULL as %s and writes string values verbatim: the string value %s is read back as NULL",
+					wd.fn, strconv.Quote(wd.w), g.guards, wname, shown, strconv.Quote(wd.w)))
 		}
 	}
-	// (c) the reader maps to NULL only what the writer writes for NULL: any other word is the text of a string value
-	seen := map[string]bool{}
-	for _, wd := range words {
-		for _, cls := range []string{"off", "on"} {
-			if wd.cls != "" && wd.cls != cls {
-				continue
-			}
-			key := fmt.Sprintf("%s/word %s read as NULL with escaping %s", wd.fn, strconv.Quote(wd.w), clsName[cls])
-			if seen[key] {
-				continue
-			}
-			seen[key] = true
-			c.Check(bare[cls][wd.w], "C50-O3", key, wd.pos, "the writer emits that word for NULL",
-				fmt.Sprintf("%s maps the field text %s to NULL also when escaping is %s, but %s never writes that word for NULL then (it writes string values verbatim): the string value %s is read back as NULL",
-					wd.fn, strconv.Quote(wd.w), clsName[cls], wname, strconv.Quote(wd.w)))
+	for _, cls := range []string{"off", "on"} {
+		if !covered[cls] {
+			c.Bad("C50-O3", keyOf(cls), w.fd.Pos(), fmt.Sprintf("%s writes nothing for a nil value when escaping is %s: the field is read back as an empty string", wname, clsName[cls]))
 		}
 	}
 }
